@@ -122,3 +122,123 @@ def _rangeset(eng, st, args, kwargs):
     from .values import KSetInt
     a, b, s = [eng.as_int(x, st) for x in args]
     return V(KSetInt, eng.rangeset()(a, b, s))
+
+
+# ---- matrix-level spec functions: contracts speak about tensor *values* with the same uninterpreted
+# operations the torch models use, so code-vs-formula is congruence; algebra lives in lemmas.
+def _as_mat(eng, st, x):
+    from . import tensors as T
+    if T.is_tensor(x) or (hasattr(x.kind, 'cls') and x.kind.cls is None and x.kind.name.startswith('Ref')):
+        return T.tv(eng, st, V(T.KRef('Tensor'), x.term))
+    if x.kind == T.KMat:
+        return x.term
+    raise SpecError(f'matrix expected, got {x.kind!r}')
+
+
+def _as_real(eng, st, x):
+    _, _, r = eng.num_parts(x, st)
+    return r
+
+
+def _mat_op(name, sig):
+    """sig: string of argument sorts: M matrix, R real, I int, L shape list; last char = result."""
+    from . import tensors as T
+    sorts = {'M': T.M, 'R': z3.RealSort(), 'I': z3.IntSort(), 'L': T.LS}
+
+    @spec(name)
+    def fn(eng, st, args, kwargs, name=name, sig=sig):
+        ts = []
+        for a, c in zip(args, sig[:-1]):
+            if c == 'M':
+                ts.append(_as_mat(eng, st, a))
+            elif c == 'R':
+                ts.append(_as_real(eng, st, a))
+            elif c == 'I':
+                ts.append(eng.as_int(a, st))
+            else:
+                ts.append(a.term)
+        f = T.mf(name, *[sorts[c] for c in sig])
+        r = f(*ts)
+        if sig[-1] == 'M':
+            return V(T.KMat, r)
+        if sig[-1] == 'R':
+            from .values import RealV
+            return RealV(r)
+        from .values import IntV
+        return IntV(r)
+    return fn
+
+
+for _n, _s in [('mul', 'MMM'), ('add', 'MMM'), ('sub', 'MMM'), ('hmul', 'MMM'), ('hdiv', 'MMM'), ('smul', 'RMM'),
+               ('sadd', 'MRM'), ('sdiv', 'MRM'), ('rdiv', 'RMM'), ('tr', 'MM'), ('inv', 'MM'), ('diag', 'MM'),
+               ('full', 'LRM'), ('hcat', 'MMM'), ('lcols', 'MM'), ('lastcol', 'MM'), ('view', 'MLLM'),
+               ('eigvals', 'MM'), ('eigvecs', 'MM'), ('clampmin', 'MRM'), ('outer', 'MMM'), ('sumall', 'MM'),
+               ('item', 'MR'), ('allsum', 'MIM'), ('numel', 'LI'), ('patches', 'MLIIIIIIM')]:
+    _mat_op(_n, _s)
+
+
+@spec('val')
+def _val(eng, st, args, kwargs):
+    from . import tensors as T
+    return V(T.KMat, _as_mat(eng, st, args[0]))
+
+
+@spec('is_tensor')
+def _is_tensor(eng, st, args, kwargs):
+    (x,) = args
+    return BoolV(eng.isinstance_term(st, x, 'Tensor'))
+
+
+@spec('is_future')
+def _is_future(eng, st, args, kwargs):
+    (x,) = args
+    return BoolV(eng.isinstance_term(st, x, 'Future'))
+
+
+@spec('fresh_storage')
+def _fresh_storage(eng, st, args, kwargs):
+    """The tensor's storage was allocated during this call."""
+    from . import tensors as T
+    (x,) = args
+    sid = T.tf(eng, st, V(T.KRef('Tensor'), x.term), 'sid').term
+    key = '$ghost:next_sid'
+    cur = eng.heap_array(st, key, T.KInt)
+    arr = eng._spec_old.heap.get(key)
+    if arr is None:
+        arr = eng.old_heap.get(key, cur)
+    old_next = z3.Select(arr, 0)
+    return BoolV(sid >= old_next)
+_mat_op('infer_extent', 'III')
+for _n, _s in [('transpose', 'MIIM'), ('unfold', 'MIIIM'), ('pad', 'MIIIIM')]:
+    _mat_op(_n, _s)
+
+
+@spec('shape_is')
+def _shape_is(eng, st, args, kwargs):
+    """The tensor's shape list is exactly (as a value, canonical representation) the given list."""
+    from . import tensors as T
+    t, lst = args
+    sh = T.tf(eng, st, V(T.KRef('Tensor'), t.term), 'shape')
+    return BoolV(sh.term == T.canon_shape(lst).term)
+
+
+@spec('onecol')
+def _onecol(eng, st, args, kwargs):
+    from . import theory as TH
+    _, syms = TH.groups()
+    return BoolV(syms['onecol'](_as_mat(eng, st, args[0])))
+
+
+@spec('invertible')
+def _invertible(eng, st, args, kwargs):
+    from . import theory as TH
+    _, syms = TH.groups()
+    return BoolV(syms['invertible'](_as_mat(eng, st, args[0])))
+
+
+@spec('eye')
+def _eye(eng, st, args, kwargs):
+    from . import theory as TH
+    from . import tensors as T
+    _, syms = TH.groups()
+    return V(T.KMat, syms['eye']())
